@@ -158,3 +158,18 @@ Theorem C02_fp_all_agree :
   forall attrs f, collect attrs = Some (Some f) ->
   forall a, In a attrs -> parse_fp a = Some f.
 Proof. exact collect_all_agree. Qed.
+
+(* the comparison in handle_certificate is equality of the WHOLE strings: a strict prefix of the digest string
+   (in particular the empty string, or a one-byte value the SDP layer accepts) is not the digest *)
+Theorem C02_fp_compare_exact :
+  forall expected digest, fp_accepts expected digest = true <-> expected = render digest.
+Proof. exact fp_accepts_iff. Qed.
+
+Theorem C02_fp_prefix_rejected :
+  forall expected rest digest, render digest = expected ++ rest -> rest <> [] -> fp_accepts expected digest = false.
+Proof. exact fp_prefix_rejected. Qed.
+
+Theorem C02_sdp_value_accepts_digest :
+  forall v e d, d <> [] -> Forall (fun b => 0 <= b < 256) d -> normalize v = Some e ->
+  (fp_accepts e d = true <-> canon v = hexdigits d).
+Proof. exact sdp_value_accepts_digest. Qed.
